@@ -329,6 +329,12 @@ func (lam *Lambda) Compile(s *Scope, extraVars ...string) {
 	expand:
 		switch tf := f.(type) {
 		case Symbol:
+			if strings.Contains(string(tf), ":") {
+				// A keyword or a name with a package prefix is not a
+				// variable of the current package, it is evaluated as
+				// the symbol it is.
+				break
+			}
 			if s.has(string(tf)) || lam.Doc.getArg(string(tf)) != nil {
 				break
 			}
